@@ -82,7 +82,9 @@ def selftest(ctx, traces):
     def flood(frames, n):
         last = n[-1]
         for k in range(1, 9):
-            frames.append(dict(last, seq=last["seq"] + k, cid="%02x" % k + last["cid"][2:], token="%02x" % k + last["token"][2:]))
+            # first byte XOR k: different from the original and from each other whatever the (random) token / id bytes are
+            frames.append(dict(last, seq=last["seq"] + k, cid="%02x" % (int(last["cid"][:2], 16) ^ k) + last["cid"][2:],
+                               token="%02x" % (int(last["token"][:2], 16) ^ k) + last["token"][2:]))
 
     def retire_bad(frames, n):
         frames.append({"type": "RETIRE_CONNECTION_ID", "seq": 77})
